@@ -70,12 +70,17 @@ RemoveExtra(o, nm) == /\ Len(hist) < MaxDepth /\ Exists(o) /\ nm \in {reg[alias[
                       /\ reg' = [reg EXCEPT ![o] = SelectSeq(reg[alias[o]], LAMBDA x : x # nm)]
                       /\ alias' = [alias EXCEPT ![o] = o]
                       /\ UNCHANGED <<ids, scalar, cache>> /\ Log([op |-> "remove_extra", obj |-> o, arg |-> nm])
+\* get_label / get_id of a source the object does not describe (it exists in the parent): the call must raise and
+\* nothing changes
+GetAbsent(o, i) == /\ Len(hist) < MaxDepth /\ Exists(o) /\ i \notin {ids[o][j] : j \in 1..Len(ids[o])}
+                   /\ UNCHANGED <<ids, scalar, cache, reg, alias>> /\ Log([op |-> "get_absent", obj |-> o, arg |-> ToString(i)])
 Init == /\ ids = [o \in Objs |-> IF o = "P" THEN [i \in 1..NSrc |-> i] ELSE NoObj]
         /\ scalar = [o \in Objs |-> FALSE] /\ cache = [o \in Objs |-> Empty]
         /\ reg = [o \in Objs |-> <<>>] /\ alias = [o \in Objs |-> o] /\ hist = <<>>
 Next == \/ \E o \in Objs, k \in Kinds : Eval(o, k)
         \/ \E o \in Objs, f \in IdxForms : Index(o, f)
         \/ \E o \in Objs, nm \in ExtraNames : AddExtra(o, nm) \/ RemoveExtra(o, nm)
+        \/ \E o \in Objs \ {"P"}, i \in 1..NSrc : GetAbsent(o, i)
 Spec == Init /\ [][Next]_vars
 
 \* the rows cached in o for kind k belong to exactly o's sources, in o's order
